@@ -76,7 +76,7 @@ Definition api_saved (s : st) : Prop :=
   end.
 Definition resend_saved (s : st) : Prop :=
   match k_ppc (k s) with
-  | PResend l => all_list (g_saved (g s)) l
+  | PResend _ l => all_list (g_saved (g s)) l
   | _ => True
   end.
 
